@@ -22,6 +22,12 @@ def gen_case(rng, i):
     if op == "hessian":
         a["names"] = a["names"][:3]
         a["terms"] = dedup([[t[0][:3], t[1]] for t in a["terms"]])
+    if a["kind"] == "int" and rng.random() < .2:
+        # narrow coefficient dtype with coefficients near its limit: exponent * coefficient must not wrap in that dtype
+        dt, top = gen.choice(rng, [("int8", 127), ("uint8", 255), ("int16", 32767), ("uint16", 65535)])
+        a["dtype"] = dt
+        for t in a["terms"]:
+            t[1] = [(0 if x == 0 else (top - int(rng.integers(0, 40))) // (1 if rng.random() < .5 else 2)) if isinstance(x, int) else x for x in t[1]]
     c = {"id": i, "kind": "c06", "op": op, "a": a}
     if op == "derivative":
         k = len(a["names"])
